@@ -3,4 +3,4 @@
 cd "$(dirname "$0")"
 only=${1:-}
 ( for p in mutants/*.patch; do b=$(basename $p); prop=${b%%-*}; [ -n "$only" ] && [ "$prop" != "$only" ] && continue; echo "./runmutant.sh $PWD/$p $prop"; done
-  for d in ../seeded/*/; do [ -f $d/patch.diff ] || continue; prop=$(basename $d | cut -c1-3); [ -n "$only" ] && [ "$prop" != "$only" ] && continue; echo "./runseed.sh $d $prop"; done ) | xargs -P ${PAR:-4} -I{} sh -c "{}" 2>&1 | cut -c1-220
+  for d in ../seeded/*/; do [ -f $d/patch.diff ] || continue; prop=$(basename $d | cut -c1-3); [ -n "$only" ] && [ "$prop" != "$only" ] && continue; echo "./runseed.sh $d $prop"; done ) | xargs -P ${PAR:-4} -I{} sh -c "{}" 2>&1 | stdbuf -oL cut -c1-220
